@@ -213,6 +213,18 @@ fn explore(ctx: &mut Ctx) {
             }
         }
     }
+    // Huge universes (wide low parts, values near usize::MAX).
+    for values in [vec![usize::MAX - 1], vec![1usize << 63], vec![(1usize << 63) + (1 << 62)], vec![usize::MAX - 1, usize::MAX - 1], vec![0, usize::MAX - 1],
+                   vec![5, 5, 1 << 62, 1 << 62, (1 << 63) + 7], vec![(1 << 63) - 1, 1 << 63, 1 << 63], vec![1usize << 40; 3]] {
+        let universe = values.last().unwrap() + 1;
+        let c = Case::Multi { universe, values: values.clone() };
+        if ctx.mine(&c) {
+            ctx.count("huge_universe_cases", 1);
+            ctx.sample_tagged("huge-universe", || serde_json::to_value(&c).unwrap());
+            check_multi(ctx, universe, &values, None);
+            check_from_iter(ctx, &values);
+        }
+    }
     // try_from_iter over every sequence, sorted or not.
     let (alpha, len) = if thorough { (8, 7) } else { (6, 5) };
     enumr::words(alpha, len, |w| {
